@@ -401,11 +401,51 @@ func coqAI(v int, e bool) string {
 	return fmt.Sprintf("(AI false %d%%N %s)", v, hx.CoqBool(e))
 }
 
+// checkWf: kinds are yaml.v3's five constants, mappings have an even number
+// of children, documents at most one, no nil child, scalars and aliases no children.
+func checkWf(n *yaml.Node, depth int) string {
+	if n == nil {
+		return "nil node"
+	}
+	if depth == 0 && n.Kind == 0 && len(n.Content) == 0 {
+		return "" // the zero Node of an empty document
+	}
+	switch n.Kind {
+	case yaml.DocumentNode:
+		if len(n.Content) > 1 {
+			return fmt.Sprintf("document with %d children", len(n.Content))
+		}
+	case yaml.MappingNode:
+		if len(n.Content)%2 != 0 {
+			return fmt.Sprintf("mapping with %d children at %d:%d", len(n.Content), n.Line, n.Column)
+		}
+	case yaml.SequenceNode:
+	case yaml.ScalarNode, yaml.AliasNode:
+		if len(n.Content) != 0 {
+			return fmt.Sprintf("scalar/alias with children at %d:%d", n.Line, n.Column)
+		}
+	default:
+		return fmt.Sprintf("node kind %d at %d:%d", n.Kind, n.Line, n.Column)
+	}
+	for _, c := range n.Content {
+		if bad := checkWf(c, depth+1); bad != "" {
+			return bad
+		}
+	}
+	return ""
+}
+
 var yamlLineRe = regexp.MustCompile(`\bline (\d+):`)
 
 func (r *runner) observe(c *Case, res *result) {
 	wantY := c.Stream == "byte-workflow" || c.Stream == "node-wf" || c.Stream == "node-k"
 	if c.K == nil && !wantY {
+		if c.Idx%16 == 0 {
+			var d yaml.Node
+			if yaml.Unmarshal(c.Data, &d) == nil {
+				res.WfBad = checkWf(&d, 0)
+			}
+		}
 		return
 	}
 	var doc yaml.Node
@@ -467,6 +507,10 @@ func (r *runner) observe(c *Case, res *result) {
 		}
 		res.YTerm = "(" + term + ", " + hx.CoqList(obs) + ")"
 		return
+	}
+	// hypothesis wf_ynode, asserted on every tree yaml.v3 hands over
+	if bad := checkWf(&doc, 0); bad != "" {
+		res.WfBad = bad
 	}
 	if c.K == nil {
 		return
